@@ -85,6 +85,49 @@ def run(ctx):
         ps3 = [dict(p, copy=1) for p in ps[:len(ps) // 2]]
         b3 = runcheck.run_batch(ctx, bdir, A, ps3, [], "on a copy", replay=False, blame_crash=False)
         runcheck.compare_pairs(ctx, [r for _, r, _ in b1][:len(ps3)], [r for _, r, _ in b3], same, "original vs nlopt_copy", {"cause": "copy optimizes differently"})
+        # every return path includes the out-of-memory exits of nlopt_optimize itself: the k-th allocation made inside the call
+        # fails (malloc interposed), for maximization / memoized / dimension-eliminated / nested configurations
+        from ..common import build_harness
+        from .. import monitors
+        exe, ok, log = build_harness("run_oom", bdir, extra=["-fno-builtin", "-Wl,--wrap=malloc,--wrap=calloc,--wrap=realloc"])
+        if not ok:
+            ctx.broke("harness run_oom.c does not build", log)
+        else:
+            po = []
+            for nm in problems.ALL:
+                if nm in ("NLOPT_GN_AGS", "NLOPT_GD_STOGO", "NLOPT_GD_STOGO_RAND"):
+                    continue          # C++ cores allocate with operator new (not interposed)
+                base = problems.gen_problem(rng, A, alg_name=nm, box=rng.choice(["fixed", "fixed", "finite"]), maxeval=rng.choice([5, 15]))
+                if rng.random() < 0.6:
+                    base["max"] = 1
+                    if "stopval" in base:
+                        base["stopval"] = abs(base["stopval"])
+                for k in (range(1, 25) if ctx.thorough else (1, 2, 3, 4, 5, 6, 8, 11, 15)):
+                    q = dict(base)
+                    q["failalloc"] = k
+                    po.append(q)
+            env = dict(os.environ)
+            env["HRUN_TIMEOUT"] = "10"
+            pr = subprocess.run([exe], input=("\n".join(problems.to_line(p) for p in po) + "\n").encode(), stdout=subprocess.PIPE, stderr=subprocess.PIPE, env=env)
+            oruns = swrap.parse_records(pr.stdout.decode("utf-8", "replace"))
+            fired = crashed = 0
+            for p, r in zip(po, oruns):
+                ctx.case(r.spec)
+                name = A.name(p["alg"])
+                if r.status != "ok":
+                    # a crash is not a return path: none of the 20 properties quantifies over allocation failures inside
+                    # nlopt_optimize (C18 covers the configuration calls), so this is recorded as an observation, not a violation
+                    crashed += 1
+                    ctx.cov.setdefault("observations_outside_the_property_list", []).append("%s: %s when allocation %d inside nlopt_optimize fails" % (name, r.status, p["failalloc"]))
+                    continue
+                if getattr(r, "oom", {}).get("fired") == "1":
+                    fired += 1
+                ri = monitors.RunInfo(r, A)
+                v = mon_settings(ri)
+                if v:
+                    v[0]["path"] = "allocation failure inside nlopt_optimize"
+                    ctx.violation(v[0], v[1] + " [allocation %d failed]" % p["failalloc"], {"stream": "run_oom", "spec": r.spec})
+            ctx.corr["allocation failures inside nlopt_optimize"] = {"runs": len(oruns), "runs_in_which_the_fault_fired": fired, "crashes": crashed}
         ctx.sample({"spec": b1[0][1].spec})
     ctx.assumptions += ["determinism of the numeric cores beyond the global-symbol table (e.g. reads of uninitialised memory) is not modelled",
                         "separate processes share the machine's libm and FPU settings"]
